@@ -24,6 +24,7 @@ T8 = [
     ("dyn_read_a", r"&'a mut dyn (?:io::|std::io::)?Read\b", "DynRead<'a>", "trait object replaced by the opaque shim DynRead (same ghost state; dispatch is irrelevant to the contracts)"),
     ("dyn_read", r"&mut dyn (?:io::|std::io::)?Read\b", "DynRead<'_>", "same"),
     ("dyn_write", r"&mut dyn (?:io::|std::io::)?Write\b", "DynWrite<'_>", "trait object replaced by the opaque shim DynWrite"),
+    ("flate2_read", r"flate2::read::DeflateDecoder", "DeflateDecoder", "crate path resolves to the decoder shim"),
     ("std_io", r"(?<![\w:])(?:::)?std::io::(Take|Read|Write|Seek|Result|Error|ErrorKind)\b", r"io::\1", "absolute std::io path resolves to the io shim module"),
 ]
 def apply_t8(text, where, log):
